@@ -241,3 +241,93 @@ func VH_C06_Bytes() {
 		vReach("parse-error")
 	}
 }
+
+// --- Routing with the default (text/scanner) lexer: malformed literals,
+// comments, NUL and invalid UTF-8 make text/scanner report errors, which every
+// entry point must deliver identically.
+
+type vgScanWords struct {
+	Words []string `( @Ident | @String | @Int | @Char | @RawString | @Float | @( "+" | "-" | "." | "/" | "*" ) )*`
+}
+
+const vhScanBytes = 3 // @tier quick=3 thorough=4
+
+var vhScanAlphabet = []byte{'"', 'a', '\\', '\n', '`', '\'', '1', ' ', '/', '*', 0x80, 0, 'e', '.', '+'}
+
+func vhScanInput() string {
+	n := vChoose("len", vhScanBytes+1)
+	in := vString("in", n)
+	for i := 0; i < n; i++ {
+		ok := false
+		for _, c := range vhScanAlphabet {
+			ok = vOr(ok, in[i] == c)
+		}
+		vAssume(ok)
+	}
+	return in
+}
+
+func vhScanOutcome(toks []lexer.Token, err error) (n int, msg string) {
+	if err != nil {
+		return -1, err.Error()
+	}
+	return len(toks), ""
+}
+
+func VH_C15_RoutingDefault() {
+	in := vhScanInput()
+	p, err := Build[vgScanWords]()
+	vAssert(err == nil, "catalogue grammar must build")
+	a1, e1 := p.ParseString("f", in)
+	a2, e2 := p.ParseBytes("f", []byte(in))
+	a3, e3 := p.Parse("f", strings.NewReader(in))
+	vhSameError(e1, e2, "C15: ParseString vs ParseBytes (default lexer)")
+	vhSameError(e1, e3, "C15: ParseString vs Parse (default lexer)")
+	same := func(x, y *vgScanWords, tag string) {
+		vAssert((x == nil) == (y == nil), tag+": nil-ness of the AST differs")
+		if x != nil {
+			vAssert(len(x.Words) == len(y.Words), tag+": ASTs differ")
+			for i := range x.Words {
+				vAssert(x.Words[i] == y.Words[i], tag+": ASTs differ")
+			}
+		}
+	}
+	same(a1, a2, "C15: ParseString vs ParseBytes (default lexer)")
+	same(a1, a3, "C15: ParseString vs Parse (default lexer)")
+	if e1 == nil {
+		vReach("parsed")
+	} else {
+		vReach("failed")
+	}
+}
+
+// Lex, LexString and LexBytes of the text/scanner definition agree
+func VH_C15_LexEntryPointsDefault() {
+	in := vhScanInput()
+	def := lexer.TextScannerLexer
+	l1, le1 := def.Lex("f", strings.NewReader(in))
+	vAssert(le1 == nil, "Lex failed")
+	t1, e1 := lexer.ConsumeAll(l1)
+	if sd, ok := def.(lexer.StringDefinition); ok {
+		l2, le2 := sd.LexString("f", in)
+		vAssert(le2 == nil, "LexString failed")
+		t2, e2 := lexer.ConsumeAll(l2)
+		vhSameError(e1, e2, "C15: Lex vs LexString (text/scanner)")
+		vAssert(len(t1) == len(t2), "C15: Lex vs LexString token count (text/scanner)")
+	}
+	if bd, ok := def.(lexer.BytesDefinition); ok {
+		l3, le3 := bd.LexBytes("f", []byte(in))
+		vAssert(le3 == nil, "LexBytes failed")
+		t3, e3 := lexer.ConsumeAll(l3)
+		vhSameError(e1, e3, "C15: Lex vs LexBytes (text/scanner)")
+		vAssert(len(t1) == len(t3), "C15: Lex vs LexBytes token count (text/scanner)")
+		for i := range t1 {
+			vAssert(t1[i] == t3[i], "C15: Lex vs LexBytes token differs (text/scanner)")
+		}
+	}
+	if e1 != nil {
+		vReach("lex-error")
+	} else {
+		vReach("lexed")
+	}
+}
